@@ -830,7 +830,7 @@ def run(chk):
                 'non-uniform, 1..12 cells incl. every minimal size (1-2 cells clamped, ncells=degree and degree+1 periodic); data: '
                 'normal, per-entry 2^±30, 2^30, 2^-30, small integers, complex (clamped), polynomials (clamped); 2-D: all four '
                 'clamped/periodic combinations; distinct by (degree, boundary, kind, cells, data kind)')
-    chk.proof_side(build=not getattr(chk, 'no_build', False))
+    chk.proof_side(build=not getattr(chk, 'no_build', False), extra_props=('C08Extra',))
     drv = common.LeanDriver('C08.lean')
     try:
         knots_and_points(chk, drv)
